@@ -27,11 +27,15 @@ impl Params {
 
 // ------------------------------------------------------------------ primitives
 
+/// overflow-safe sub-slice (the model also parses hostile bytes)
+fn sl(b: &[u8], at: usize, n: usize) -> Option<&[u8]> {
+    b.get(at..at.checked_add(n)?)
+}
 fn u32le(b: &[u8], at: usize) -> Option<u32> {
-    b.get(at..at + 4).map(|s| u32::from_le_bytes(s.try_into().unwrap()))
+    sl(b, at, 4).map(|s| u32::from_le_bytes(s.try_into().unwrap()))
 }
 fn u64le(b: &[u8], at: usize) -> Option<u64> {
-    b.get(at..at + 8).map(|s| u64::from_le_bytes(s.try_into().unwrap()))
+    sl(b, at, 8).map(|s| u64::from_le_bytes(s.try_into().unwrap()))
 }
 
 #[derive(Clone, Debug)]
@@ -241,8 +245,8 @@ pub fn decompress_all(data: &[u8], block: usize) -> Result<(Vec<u8>, CompLayout)
         return Err(format!("bad sizes footer length {flen}"));
     }
     let fat = data.len() - 4 - flen;
-    let n = u64le(data, fat).ok_or("sizes footer")? as usize;
-    if 8 + 4 * n + 4 != flen {
+    let n = usize::try_from(u64le(data, fat).ok_or("sizes footer")?).map_err(|_| "sizes footer")?;
+    if n > data.len() || 8 + 4 * n + 4 != flen {
         return Err(format!("sizes footer length {flen} does not match count {n}"));
     }
     let mut sizes = Vec::new();
@@ -254,7 +258,7 @@ pub fn decompress_all(data: &[u8], block: usize) -> Result<(Vec<u8>, CompLayout)
     let mut blocks = Vec::new();
     let mut p = 0usize;
     for (i, sz) in sizes.iter().enumerate() {
-        if p + sz > fat {
+        if p.checked_add(*sz).is_none_or(|e| e > fat) {
             return Err("compressed sizes exceed the stream".into());
         }
         let mut dec = Vec::new();
@@ -340,7 +344,7 @@ pub fn parse_blocks(s: &[u8]) -> (Vec<FBlock>, ParseEnd) {
                 if len > 65536 {
                     return (v, ParseEnd::BadType(p));
                 }
-                let Some(name) = s.get(p + 17..p + 17 + len) else { return (v, ParseEnd::Eof { inside_block: true }) };
+                let Some(name) = sl(s, p + 17, len) else { return (v, ParseEnd::Eof { inside_block: true }) };
                 v.push(FBlock::Start { off, id, name: name.to_vec() });
                 p += 17 + len;
             }
@@ -356,7 +360,7 @@ pub fn parse_blocks(s: &[u8]) -> (Vec<FBlock>, ParseEnd) {
             }
             0xFF => {
                 let Some(id) = u64le(s, p + 1) else { return (v, ParseEnd::Eof { inside_block: true }) };
-                let Some(h) = s.get(p + 9..p + 41) else { return (v, ParseEnd::Eof { inside_block: true }) };
+                let Some(h) = sl(s, p + 9, 32) else { return (v, ParseEnd::Eof { inside_block: true }) };
                 v.push(FBlock::End { off, id, hash: h.try_into().unwrap() });
                 p += 41;
             }
@@ -432,17 +436,23 @@ pub fn parse_index(s: &[u8]) -> Result<Index, String> {
     }
     let at = s.len() - 4 - len;
     let mut p = at;
-    let n = u64le(s, p).ok_or("index")? as usize;
+    let n = usize::try_from(u64le(s, p).ok_or("index")?).map_err(|_| "index")?;
     p += 8;
+    if n > s.len() {
+        return Err("index count exceeds the stream".into());
+    }
     let mut entries = Vec::new();
     for _ in 0..n {
         let e_at = p;
-        let nl = u64le(s, p).ok_or("index")? as usize;
+        let nl = usize::try_from(u64le(s, p).ok_or("index")?).map_err(|_| "index")?;
         p += 8;
-        let name = String::from_utf8(s.get(p..p + nl).ok_or("index name")?.to_vec()).map_err(|_| "index name utf8")?;
+        let name = String::from_utf8(sl(s, p, nl).ok_or("index name")?.to_vec()).map_err(|_| "index name utf8")?;
         p += nl;
-        let no = u64le(s, p).ok_or("index")? as usize;
+        let no = usize::try_from(u64le(s, p).ok_or("index")?).map_err(|_| "index")?;
         p += 8;
+        if no > s.len() / 8 {
+            return Err("index offsets exceed the stream".into());
+        }
         let mut offsets = Vec::new();
         for _ in 0..no {
             offsets.push(u64le(s, p).ok_or("index")?);
